@@ -47,16 +47,16 @@ carquet_status_t carquet_bloom_filter_read(carquet_bloom_filter_t**, const uint8
 carquet_status_t carquet_dictionary_encode_int32(const int32_t*, int64_t, carquet_buffer_t*, carquet_buffer_t*);
 
 static const char* TMP = "/tmp";
-static table_t* make_table(int codec, int wide) { __lsan_disable(); vrng_t r; vrng_seed(&r, 4242 + (uint64_t)codec * 7 + (uint64_t)wide); tgen_t gp = {wide ? 1 : 5, wide ? 6 : 30, 0, -1, -1, codec, 64, wide ? 3 : 2}; table_t* t = tbl_generate(&r, &gp);
-    if (wide) { /* widen to many columns so that the writer's 4 KiB arena and the footer arenas must grow */ int nc = 260; tcol_t* cols = calloc((size_t)nc, sizeof(tcol_t)); for (int c = 0; c < nc; c++) { cols[c] = t->cols[0]; snprintf(cols[c].name, sizeof cols[c].name, "wide_column_with_a_long_name_%04d", c); }
+static table_t* make_table(int codec, int wide) { __lsan_disable(); vrng_t r; vrng_seed(&r, 4242 + (uint64_t)codec * 7 + (uint64_t)wide); tgen_t gp = {wide == 1 ? 1 : wide == 2 ? 3 : 5, wide == 1 ? 6 : wide == 2 ? 150 : 30, 0, wide == 2 ? (int)CARQUET_PHYSICAL_BYTE_ARRAY : -1, -1, codec, 64, wide == 1 ? 3 : 2};   /* wide == 2: BYTE_ARRAY columns whose chunks span many 64-byte pages */ table_t* t = tbl_generate(&r, &gp);
+    if (wide == 1) { /* widen to many columns so that the writer's 4 KiB arena and the footer arenas must grow */ int nc = 260; tcol_t* cols = calloc((size_t)nc, sizeof(tcol_t)); for (int c = 0; c < nc; c++) { cols[c] = t->cols[0]; snprintf(cols[c].name, sizeof cols[c].name, "wide_column_with_a_long_name_%04d", c); }
         for (int g = 0; g < t->nrg; g++) { tchunk_t* ch = calloc((size_t)nc, sizeof(tchunk_t)); for (int c = 0; c < nc; c++) { ch[c] = t->rg[g][0]; } /* chunks alias column 0's arrays; never freed individually */ t->rg[g] = ch; } t->cols = cols; t->ncols = nc; }
     __lsan_enable(); return t; }
 
 /* compare what an open reader delivers with the model; returns 0 equal, 1 differs, -1 an error was reported */
 static int read_and_compare(carquet_reader_t* rd, const table_t* t, int use_batch) {
     int map[16]; if (t->nrg > 15) return -1; if (carquet_reader_num_columns(rd) != t->ncols || !rd_map_groups(rd, t, map)) return 1; carquet_error_t err = CARQUET_ERROR_INIT;
-    if (!use_batch) { for (int g = 0; g < t->nrg; g++) { if (map[g] < 0) continue; for (int c = 0; c < t->ncols; c++) { const tcol_t* col = &t->cols[c]; const tchunk_t* k = &t->rg[g][c]; carquet_column_reader_t* cr = carquet_reader_get_column(rd, map[g], c, &err); if (!cr) return -1;
-                int64_t rows = k->nlevels, pos = 0, vpos = 0; int rc = 0; while (pos < rows && !rc) { int64_t kk = rows - pos < 9 ? rows - pos : 9; void* vals = __real_malloc((size_t)kk * t_api_elem_size(col) + 1); int16_t* defs = __real_malloc((size_t)kk * 2 + 2); int64_t n = carquet_column_read_batch(cr, vals, kk, defs, NULL);
+    if (use_batch != 1) { for (int g = 0; g < t->nrg; g++) { if (map[g] < 0) continue; for (int c = 0; c < t->ncols; c++) { const tcol_t* col = &t->cols[c]; const tchunk_t* k = &t->rg[g][c]; carquet_column_reader_t* cr = carquet_reader_get_column(rd, map[g], c, &err); if (!cr) return -1;
+                int64_t rows = k->nlevels, pos = 0, vpos = 0; int rc = 0; while (pos < rows && !rc) { int64_t kk = use_batch == 2 ? rows - pos : rows - pos < 9 ? rows - pos : 9;   /* whole chunk in one call: several pages behind one batch of returned pointers */ void* vals = __real_malloc((size_t)kk * t_api_elem_size(col) + 1); int16_t* defs = __real_malloc((size_t)kk * 2 + 2); int64_t n = carquet_column_read_batch(cr, vals, kk, defs, NULL);
                     if (n <= 0) rc = -1; else { int64_t nn = 0; for (int64_t q = 0; q < n; q++) { if ((defs[q] == col->max_def) != (k->def[pos + q] == col->max_def)) rc = 1; if (k->def[pos + q] == col->max_def) nn++; } if (!rc && !tbl_values_equal(col, k, vpos, nn, vals)) rc = 1; pos += n; vpos += nn; } free(vals); free(defs); }
                 carquet_column_reader_free(cr); if (rc) return rc; } } return 0; }
     carquet_batch_reader_config_t cfg; carquet_batch_reader_config_init(&cfg); cfg.batch_size = 7; cfg.num_threads = 1; carquet_batch_reader_t* br = carquet_batch_reader_create(rd, &cfg, &err); if (!br) return -1;
@@ -64,7 +64,9 @@ static int read_and_compare(carquet_reader_t* rd, const table_t* t, int use_batc
     for (;;) { carquet_row_batch_t* b = NULL; carquet_status_t st = carquet_batch_reader_next(br, &b); if (st == CARQUET_ERROR_END_OF_DATA) break; if (st != CARQUET_OK || !b) { rc = -1; break; } int64_t nr = carquet_row_batch_num_rows(b);
         if (nr == 0) { carquet_row_batch_free(b); continue; } while (g < t->nrg && (map[g] < 0 || pos >= t->rg_rows[g])) { g++; pos = 0; for (int c = 0; c < t->ncols; c++) vpos[c] = 0; } if (g >= t->nrg || nr > t->rg_rows[g] - pos) { rc = 1; carquet_row_batch_free(b); break; }
         for (int c = 0; c < t->ncols && !rc; c++) { const void* d; const uint8_t* bm; int64_t nv; if (carquet_row_batch_column(b, c, &d, &bm, &nv) != CARQUET_OK || nv != nr) { rc = 1; break; } const tcol_t* col = &t->cols[c]; const tchunk_t* k = &t->rg[g][c]; int64_t nn = 0; for (int64_t q = 0; q < nr; q++) if (k->def[pos + q] == col->max_def) nn++;
-            if (!tbl_values_equal(col, k, vpos[c], nn, d)) rc = 1; vpos[c] += nn; }
+            if (!tbl_values_equal(col, k, vpos[c], nn, d)) rc = 1; vpos[c] += nn;
+            /* null bitmap: one polarity for the whole run (fixed by the first bit seen), every bit must agree with the model; a missing bitmap says "no nulls" */
+            if (col->max_def > 0) { if (!bm) { if (nn != nr) rc = 1; } else for (int64_t q = 0; q < nr; q++) { int bit = (bm[q / 8] >> (q % 8)) & 1, isnull = k->def[pos + q] != col->max_def; static int pol = -1; if (pol < 0) pol = bit ^ isnull; if ((bit ^ isnull) != pol) rc = 1; } } }
         pos += nr; carquet_row_batch_free(b); if (rc) break; }
     if (!rc) { int64_t left = 0; for (int q = g; q < t->nrg; q++) if (map[q] >= 0) left += t->rg_rows[q] - (q == g ? pos : 0); if (left != 0) rc = 1; }
     free(vpos); carquet_batch_reader_free(br); return rc; }
@@ -100,7 +102,7 @@ static int sc_write_on(int codec) { table_t* t = make_table(codec, 0); char path
     unlink(path); return rc; }
 
 static int sc_read(const table_t* t, const char* file, int mode, int use_batch) { carquet_error_t err = CARQUET_ERROR_INIT; ropen_t o; ARM(); int opened = rd_open(&o, file, mode, 1, 1, &err); int rc = 0;
-    if (opened) { int cmp = read_and_compare(o.rd, t, use_batch); DISARM(); if (cmp > 0) { snprintf(msg, sizeof msg, "%s read (%s) reported success with different content; allocation #%ld failed", use_batch ? "batch" : "column", IO_NAME[mode], g_fail_at); rc = 1; } rd_close(&o); }
+    if (opened) { int cmp = read_and_compare(o.rd, t, use_batch); DISARM(); if (cmp > 0) { snprintf(msg, sizeof msg, "%s read (%s) reported success with different content; allocation #%ld failed", use_batch == 1 ? "batch" : use_batch == 2 ? "whole-chunk column" : "column", IO_NAME[mode], g_fail_at); rc = 1; } rd_close(&o); }
     else { DISARM(); if (err.code == CARQUET_OK && g_failed) { snprintf(msg, sizeof msg, "open failed with error code OK"); rc = 1; } }
     DISARM(); return rc; }
 
@@ -119,9 +121,12 @@ static int run_scenario(const char* sc, const char* file, const char* tdmp) {
     if (!strcmp(sc, "widewrite")) return sc_write(CARQUET_COMPRESSION_UNCOMPRESSED, 1);
     if (!strncmp(sc, "goon", 4)) { int codec = atoi(sc + 4); return sc_write_on(T_CODECS[codec % 5]); }
     if (!strcmp(sc, "misc")) return sc_misc();
-    if (!strncmp(sc, "read", 4) || !strncmp(sc, "batch", 5) || !strncmp(sc, "dict", 4)) { int use_batch = sc[0] == 'b'; int mode = atoi(sc + (sc[0] == 'b' ? 5 : 4)); table_t* t; char ref[600];
+    if (!strncmp(sc, "wideread", 8)) { int mode = atoi(sc + 8) % 3; table_t* t = make_table(CARQUET_COMPRESSION_UNCOMPRESSED, 1); char ref[600]; snprintf(ref, sizeof ref, "%s/ref_wide.parquet", TMP);
+        if (access(ref, F_OK) != 0) { twrite_result_t res; vrng_t r; vrng_seed(&r, 7); if (!tbl_write_path(&r, t, ref, &res) || !res.all_ok) { fprintf(stderr, "driver: cannot prepare wide reference file\n"); exit(2); } }
+        return sc_read(t, ref, mode, 0); }
+    if (!strncmp(sc, "read", 4) || !strncmp(sc, "batch", 5) || !strncmp(sc, "dict", 4) || !strncmp(sc, "whole", 5)) { int use_batch = sc[0] == 'b' ? 1 : sc[0] == 'w' ? 2 : 0; int mode = atoi(sc + (sc[0] == 'b' || sc[0] == 'w' ? 5 : 4)); table_t* t; char ref[600];
         if (sc[0] == 'd') { __lsan_disable(); t = tbl_load(tdmp); __lsan_enable(); return sc_read(t, file, mode, 0); }
-        int codec = T_CODECS[(mode / 3) % 5]; mode %= 3; t = make_table(codec, 0); snprintf(ref, sizeof ref, "%s/ref_%d_0.parquet", TMP, codec);
+        int codec = T_CODECS[(mode / 3) % 5]; mode %= 3; t = make_table(codec, use_batch == 2 ? 2 : 0); snprintf(ref, sizeof ref, "%s/ref_%d_%d.parquet", TMP, codec, use_batch == 2 ? 2 : 0);
         if (access(ref, F_OK) != 0) { twrite_result_t res; vrng_t r; vrng_seed(&r, 7); if (!tbl_write_path(&r, t, ref, &res) || !res.all_ok) { fprintf(stderr, "driver: cannot prepare reference file\n"); exit(2); } }
         return sc_read(t, ref, mode, use_batch); }
     fprintf(stderr, "unknown scenario %s\n", sc); exit(2);
